@@ -31,6 +31,7 @@ BootOK(e) ==
   /\ ~e.panic /\ ~e.err
   /\ e.outlvl = e.resmax /\ e.scaleok
   /\ e.precbits >= e.logscale - e.logn - 12
+  /\ e.precbits >= e.announced              \* iterated mode: the sum of the announced per-iteration precisions (minus 5 bits)
 
 TrParams == Ev.ev = "params" /\ ~Ev.panic /\ ~Ev.err /\ ParamsOK(Ev) /\ p' = Ev /\ last' = -1
 TrStage == /\ Ev.ev = "stage" /\ ~Ev.panic /\ ~Ev.err
